@@ -5,6 +5,7 @@ from vlib.gen import Unit, Fn, Adt, Raw
 T = "crates/compiler/src/typer/toplevel.rs"
 M = "old(env).cur.trait_env.inherent_impls.methods(key)"
 T0 = "old(env).cur.trait_env.inherent_impls"
+E0 = "old(env).cur"
 
 
 def loops(k, header, kw, body=None):
@@ -12,9 +13,9 @@ def loops(k, header, kw, body=None):
         return None
     return ("invariant __fk0 <= impl_block.methods@.len(), *env == *old(env), implemented_methods@ == names_upto(hir_table, impl_block, __fk0 as int),\n"
             "  diagnostics.errors() >= old(diagnostics).errors(),\n"
-            f"  any_ambiguous({T0}, key, for_ty, hir_table, impl_block, __fk0 as int) ==> diagnostics.errors() > old(diagnostics).errors(),\n"
-            f"  forall|n: Seq<char>| methods_to_add@.dom().contains(n) ==> !is_taken({T0}, key, for_ty, n),\n"
-            f"  forall|n: Seq<char>| names_upto(hir_table, impl_block, __fk0 as int).contains(n) && !is_taken({T0}, key, for_ty, n) ==> methods_to_add@.dom().contains(n),\n"
+            f"  any_ambiguous({E0}, key, for_ty, hir_table, impl_block, __fk0 as int) ==> diagnostics.errors() > old(diagnostics).errors(),\n"
+            f"  forall|n: Seq<char>| methods_to_add@.dom().contains(n) ==> !is_taken({E0}, key, for_ty, n),\n"
+            f"  forall|n: Seq<char>| names_upto(hir_table, impl_block, __fk0 as int).contains(n) && !is_taken({E0}, key, for_ty, n) ==> methods_to_add@.dom().contains(n),\n"
             "decreases impl_block.methods@.len() - __fk0,")
 
 
@@ -24,7 +25,8 @@ UNIT = Unit(
     rules=["attrs", ("strip", "tast::"), ("strip", "hir::"), ("strip", "env::"), "fmtmsg", "for_index", "opt_is_some_and"],
     describe="typer::toplevel::define_inherent_impl, the loop over the methods of one inherent impl block and the merge into the type's method table: "
              "a method whose name the type already has — from an earlier impl block of the same key, from an earlier entry of this block, or under the "
-             "OTHER kind of key for the same type constructor (`impl Box[int32]` vs `impl[T] Box[T]`: the two call forms would resolve differently) — is an "
+             "OTHER kind of key for the same type constructor (`impl Box[int32]` vs `impl[T] Box[T]`: the two call forms would resolve differently), or "
+             "because it is the name of a variant of the enum the block is for (`T::m(x)` is then the constructor, `x.m()` the method) — is an "
              "error diagnostic, never replaces an existing definition and is not merged; every other method is defined afterwards",
     trusted=["FRAGMENT inherent_methods: define_inherent_impl from `let mut methods_to_add` to its end; the computation of the impl's key and the "
              "orphan test before it are not in this unit. Inside the loop the statements that build the method's type scheme (from "
@@ -32,7 +34,8 @@ UNIT = Unit(
              "scheme, diagnostics may grow); `entry(key).or_default()` + `methods.extend(..)` is the shim inherent_extend (IndexMap::extend: same-name "
              "entries are replaced); hir::ImplBlock / hir::Def / hir::Fn / HirTable, HashSet<String>, IndexMap<String, FnScheme> are shims",
              "toplevel::inherent_method_overlaps is verified (whole function): `impls.iter()` is the shim entries_vec (every key that has a method is among "
-             "the entries); try_constr_name is uninterpreted; ASSUMED axiom: the table is keyed by the TEXT of a constructor name (axiom_constr_key_by_text)"],
+             "the entries); toplevel::method_named_like_variant is verified (whole function): `env.current().enums()` is the shim EnumTable (keyed by the TEXT of "
+             "the enum's name), `variant.0 == method` is the shim string_eq_str; try_constr_name is uninterpreted; ASSUMED axiom: the table is keyed by the TEXT of a constructor name (axiom_constr_key_by_text)"],
     items=[
         Adt(file="crates/compiler/src/tast.rs", kw="enum", name="Ty", rules=["attrs"]),
         Adt(file="crates/compiler/src/env.rs", kw="enum", name="InherentImplKey", rules=["attrs", ("strip", "tast::")]),
@@ -55,6 +58,15 @@ UNIT = Unit(
                "  !__r0 ==> forall|j: int| 0 <= j < __i0 ==> !((#[trigger] __ents@[j]).0 matches InherentImplKey::Exact(ty) && constr_name_of(ty) == Some(constr@) && __ents@[j].1.methods@.dom().contains(method@)),\n"
                "  __r0 ==> exists|j: int| 0 <= j < __ents@.len() && ((#[trigger] __ents@[j]).0 matches InherentImplKey::Exact(ty) && constr_name_of(ty) == Some(constr@) && __ents@[j].1.methods@.dom().contains(method@)),\n"
                "decreases __ents@.len() - __i0," if "__i0 <" in header else None)),
+        Fn(file=T, name="method_named_like_variant", ret="r", optional=True, attrs="#[verifier::loop_isolation(false)]",
+           rules=["attrs", ("strip", "tast::"), ("strip", "hir::"), ("strip", "env::"), ("strip", "super::util::"), "opt_is_some_and", "iter_any"],
+           rewrites=[(re.compile(r"variant\.0 == method"), "string_eq_str(&variant.0, method)", "*")],
+           obligation="true exactly when the type is (an instance of) an enum that declares a variant of that name",
+           contract="ensures r == variant_named(env.cur, *for_ty, method@),",
+           loop_fn=lambda k, header, kw: ("invariant __i0 <= def.variants@.len(),\n"
+               "  !__r0 ==> forall|j: int| 0 <= j < __i0 ==> (#[trigger] def.variants@[j]).0.0@ != method@,\n"
+               "  __r0 ==> declares_variant(*def, method@),\n"
+               "decreases def.variants@.len() - __i0," if "__i0 <" in header else None)),
         Fn(file=T, name="define_inherent_impl", rename="inherent_methods", ret="r",
            cut_from="let mut methods_to_add: IndexMap<String, env::FnScheme> = IndexMap::new();",
            sig="fn inherent_methods(env: &mut PackageTypeEnv, diagnostics: &mut Diagnostics, impl_block: &ImplBlock, hir_table: &HirTable, key: InherentImplKey, for_ty: Ty)",
@@ -67,6 +79,7 @@ UNIT = Unit(
                      (re.compile(r"let impl_def = env\s*\.current_mut\(\)\s*\.trait_env\s*\.inherent_impls\s*\.entry\((\w+)\)\s*\.or_default\(\);\s*impl_def\.methods\.extend\((\w+)\);"),
                       r"inherent_extend(env, \1, \2);", 1),
                      (re.compile(r"inherent_method_overlaps\(env, &key, &for_ty, &(\w+)\)"), r"inherent_method_overlaps(env, &key, &for_ty, string_as_str(&\1))", "*"),
+                     (re.compile(r"method_named_like_variant\(env, &for_ty, &(\w+)\)"), r"method_named_like_variant(env, &for_ty, string_as_str(&\1))", "*"),
                      (re.compile(r"\.clone\(\)"), ".vclone()", "*")],
            loop_fn=loops,
            obligation="a method name the type already has (earlier impl block of the same key, or earlier in this block) is rejected with an error "
@@ -74,10 +87,11 @@ UNIT = Unit(
            contract=f"""ensures
             forall|n: Seq<char>| {M}.dom().contains(n) ==> final(env).cur.trait_env.inherent_impls.methods(key).dom().contains(n)
                 && final(env).cur.trait_env.inherent_impls.methods(key)[n] == {M}[n],
-            any_ambiguous({T0}, key, for_ty, hir_table, impl_block, impl_block.methods@.len() as int) ==> final(diagnostics).errors() > old(diagnostics).errors(),
-            forall|n: Seq<char>| names_upto(hir_table, impl_block, impl_block.methods@.len() as int).contains(n) && !overlap_defined({T0}, key, for_ty, n)
+            any_ambiguous({E0}, key, for_ty, hir_table, impl_block, impl_block.methods@.len() as int) ==> final(diagnostics).errors() > old(diagnostics).errors(),
+            forall|n: Seq<char>| names_upto(hir_table, impl_block, impl_block.methods@.len() as int).contains(n) && !overlap_defined({T0}, key, for_ty, n) && !variant_named({E0}, for_ty, n)
                 ==> final(env).cur.trait_env.inherent_impls.methods(key).dom().contains(n),
             forall|n: Seq<char>| overlap_defined({T0}, key, for_ty, n) && !{M}.dom().contains(n) ==> !final(env).cur.trait_env.inherent_impls.methods(key).dom().contains(n),
+            forall|n: Seq<char>| variant_named({E0}, for_ty, n) && !{M}.dom().contains(n) ==> !final(env).cur.trait_env.inherent_impls.methods(key).dom().contains(n),
             forall|k: InherentImplKey| k != key ==> final(env).cur.trait_env.inherent_impls.methods(k) == old(env).cur.trait_env.inherent_impls.methods(k),"""),
     ],
 )
